@@ -207,7 +207,9 @@ Transform ==
 
 \* CRLF terminators, applied last (the other steps locate line ends by LF)
 ToCRLF ==
-  /\ ~Mutate /\ ~crlf /\ crlf' = TRUE /\ text' = CRLF(text)
+  /\ ~Mutate /\ ~crlf /\ crlf' = TRUE
+  \* ... with the last line's terminator complete, or cut after its CR ("omitting the final newline" read literally)
+  /\ text' \in {CRLF(text), DropFinalLF(CRLF(text))}
   /\ UNCHANGED <<fmt, recs, cfg, steps>>
 
 Next == Transform \/ ToCRLF
